@@ -40,7 +40,7 @@ CLAUSES = {
     "a permessage-deflate response only if offered and enabled": "deflate_only_if_offered_and_enabled",
     "the default origin check accepts only an Origin whose host and port equal the Host header": "default_origin_only_same_host_port (+ originOk_iff); netloc = urlparse().netloc: tie only (origin stream)",
     "the client accepts a handshake response only if its accept value matches its key": "client_accepts_only_matching_key",
-    "and it negotiates nothing it did not offer": "client_negotiates_only_offered (after fix 58a3637 of D16)",
+    "and it negotiates nothing it did not offer": "client_negotiates_only_offered (after fix 55becd8 of D16)",
 }
 PARALLEL = True
 CASE_TIMEOUT = 120
